@@ -12,7 +12,10 @@ Example tie_C14_constructors :
   Src.h_basis_Basis_pauli = Expected.h_basis_Basis_pauli
   /\ Src.h_basis_Basis_ggm = Expected.h_basis_Basis_ggm
   /\ Src.h_util_tensor = Expected.h_util_tensor
-  /\ Src.h_util_tensor_binary_tensor = Expected.h_util_tensor_binary_tensor.
+  /\ Src.h_util_tensor_binary_tensor = Expected.h_util_tensor_binary_tensor
+  (* non-positive sizes are rejected; the theorems about ggm assume 0 < d *)
+  /\ raises_basis_Basis_pauli = [("ValueError", "n < 1")]
+  /\ raises_basis_Basis_ggm = [("ValueError", "d < 1")].
 Proof. repeat split; reflexivity. Qed.
 
 Example tie_C14_flags :
